@@ -19,7 +19,7 @@ RULE = (
     "Non-trivial = program with >= 2 scopes."
 )
 ASSUMPTIONS = ["ground truth (which scope declares what, which scope encloses which) is known from the generator", "wildcard USE only with valid argument counts (where it does not change resolution); interface bodies excluded"]
-BOUNDS = {"quick": dict(shadow_subsets=2, intrinsics=3, decl_kinds=3), "thorough": dict(shadow_subsets=2, intrinsics=8, decl_kinds=3, pairs=True)}
+BOUNDS = {"quick": dict(shadow_subsets=2, intrinsics=4, decl_kinds=3), "thorough": dict(shadow_subsets=2, intrinsics=8, decl_kinds=3, pairs=True)}
 
 # (referenced name, arguments, std, declared name, does the declaration shadow the reference?)
 # - generic names; specific names of generic intrinsics (DABS, AMAX1, DSIN);
@@ -28,6 +28,7 @@ BOUNDS = {"quick": dict(shadow_subsets=2, intrinsics=3, decl_kinds=3), "thorough
 INTRINSICS = [
     ("sin", "(y)", "f2003", "sin", True),
     ("dabs", "(y)", "f2003", "dabs", True),
+    ("atan2", "(y, 2.0)", "f2003", "atan2", True),  # an intrinsic whose name contains a digit
     ("dsin", "(y)", "f2003", "sin", False),
     ("max", "(y, 2)", "f2003", "max", True),
     ("sum", "(w)", "f2003", "sum", True),  # (fparser's intrinsic table is the F2003 one: NORM2 etc. are ordinary names to it, see C17)
